@@ -86,6 +86,23 @@ func selfTest(c *Ctx) (int, error) {
 		}
 		c.logf("coverage %s/%s: %d actions, all taken", mc[0], mc[1], len(res.ActionCov))
 	}
+	// ---- (c) the refinement check is not vacuous: each deviation the pinned code had is rejected
+	for dev, v := range map[string]string{"DevNoClosedState": "dyn", "DevErrNotStored": "dyn", "DevResetKeepsTokens": "dyn", "DevHuffPadBeforeSync": "huff", "DevHuffEmptyNoEOB": "huff", "DevHuffCloseDropsDst": "huff"} {
+		b, err := os.ReadFile(filepath.Join(c.specDir(), "MC_WriterRefine_"+v+".cfg"))
+		if err != nil {
+			return 0, err
+		}
+		name := "ST_" + dev + ".cfg"
+		res, err := c.TLC(tlc.Run{Module: "WriterRefine", Cfg: name, Timeout: 5 * time.Minute,
+			Inline: map[string]string{name: devCfg(string(b), dev)}})
+		if err != nil {
+			return 0, err
+		}
+		if res.Violated != "Refines" {
+			return 0, fmt.Errorf("WriterRefine with %s = TRUE is not rejected: the refinement check is vacuous there", dev)
+		}
+		c.logf("refinement: %s = TRUE (what the pinned code did) is rejected by the contract clauses", dev)
+	}
 	c.ev.Evaluations = 2
 	c.ev.nontrivial("writer-trace-corruption")
 	c.ev.nontrivial("reader-trace-corruption")
@@ -170,4 +187,14 @@ func (c *Ctx) corruptAndExpect(trace, module, cfg string, edits []fieldEdit) err
 		c.logf("binding: corrupted %s %s.%s at line %d -> rejected there with %s", ed.ev, ed.sub, ed.field, hit, ed.clause)
 	}
 	return nil
+}
+
+// devCfg switches one deviation of WriterMech on (dropping the destination in
+// Close is only observable together with the missing closed state).
+func devCfg(cfg, dev string) string {
+	cfg = strings.Replace(cfg, dev+" = FALSE", dev+" = TRUE", 1)
+	if dev == "DevHuffCloseDropsDst" {
+		cfg = strings.Replace(cfg, "DevNoClosedState = FALSE", "DevNoClosedState = TRUE", 1)
+	}
+	return cfg
 }
